@@ -1,14 +1,50 @@
 (* Props/C03agree.v — property C03, the agreement theorem between the pycoin VM model (Model/VMpy.v) and the
-   Bitcoin Core spec (Spec/VMcore.v) for single-script evaluation.  Proofs: Proofs/Agree*.v. *)
-From PV Require Import Base.Bytes Base.Outcome Gen.GenFlags Spec.VMTypes Model.VMpy Spec.VMcore Proofs.AgreeEval.
+   Bitcoin Core spec (Spec/VMcore.v) for single-script evaluation:
+       res_agree stack_eqb (VMpy.eval_script ...) (VMcore.EvalScript ...) = true
+   i.e. both succeed with the same final stack or both fail cleanly; a crash of pycoin agrees with nothing.
+   Proofs: Proofs/AgreeBase.v (codec bridges, decoder agreement, simulation relation), AgreePush.v (1), AgreeFlow.v (2),
+   AgreeStack.v (3,4), AgreeNum.v (5), AgreeMisc.v (6,7), AgreeEval.v (8, dispatcher, loops), AgreeSigEnc.v / AgreeSig.v
+   (9,10), AgreeInv.v (size invariant), AgreeFad.v (script-code equality), AgreeTop.v (assembly). *)
+From PV Require Import Base.Bytes Base.Outcome Gen.GenFlags Spec.VMTypes Model.VMpy Spec.VMcore.
+From PV Require Import Proofs.AgreeEval Proofs.AgreeSigEnc Proofs.AgreeSig Proofs.AgreeInv Proofs.AgreeFad Proofs.AgreeTop.
 
-(* PARTIAL (H3): covered = every script in which no instruction (as decoded by GetOp, executed or not) is one of
-   OP_CHECKSIG, OP_CHECKSIGVERIFY, OP_CHECKMULTISIG, OP_CHECKMULTISIGVERIFY.  Families covered: (1) pushes incl.
-   truncated pushes, minimal-push rule, push-size limit, OP_1NEGATE/OP_1..16; (2) flow control incl. MINIMALIF,
-   VERIF/VERNOTIF, VERIFY, RETURN; (3) stack ops; (4) SIZE/EQUAL/EQUALVERIFY and the disabled opcodes; (5) numeric
-   opcodes; (6) hashes and CODESEPARATOR; (7) NOPs, CLTV, CSV; (8) reserved/invalid opcodes in and out of
-   unexecuted branches, op-count, stack-size and script-size limits.
-   (H1) when sv = SV_BASE the MINIMALIF flag is clear (pycoin's VM obeys the flag bit alone; check_solution strips it). *)
+(* ALL TEN FAMILIES: (1) pushes incl. truncated pushes, minimal-push rule, push-size limit, OP_1NEGATE/OP_1..16;
+   (2) IF/NOTIF/ELSE/ENDIF/VERIF/VERNOTIF/VERIFY/RETURN incl. MINIMALIF; (3) stack ops; (4) SIZE/EQUAL/EQUALVERIFY and
+   the disabled opcodes; (5) numeric opcodes incl. 4-byte and minimal rules; (6) hashes, CODESEPARATOR; (7) NOPs, CLTV,
+   CSV; (8) reserved/invalid opcodes in and out of unexecuted branches, op-count (pycoin's delayed test), stack-size and
+   script-size limits; (9) CHECKSIG(VERIFY); (10) CHECKMULTISIG(VERIFY).
+   Hypotheses (AgreeTop.c03_hyps), each forced by the proof:
+   (H1)  sv = SV_BASE -> VERIFY_MINIMALIF and VERIFY_WITNESS_PUBKEYTYPE clear (pycoin's VM obeys the flag bits alone;
+         check_solution strips them for the non-witness runs);
+   (H2)  strict flags = true (one of DERSIG / LOW_S / STRICTENC set: pycoin's lax DER reader is never consulted) OR
+         lax_contract: o_checksig answers false for every blob pycoin's lax DER reader rejects (outside the strict
+         region Core asks the oracle about every non-empty blob, pycoin only about those it can parse);
+   and only when sv = SV_BASE (signature blobs are deleted from the script code):
+   (dec) script_decodable script = true: GetOp decodes the script to its end.  On such scripts pycoin's
+         _delete_signature (plain push, bottom-first, after /repo 2ba5b6d) and Core's FindAndDelete (top-first) are
+         PROVED equal (AgreeFad.fad_ok_dec) — no FindAndDelete hypothesis is left.  On an undecodable script both
+         sides fail at the bad instruction at the latest, but their script codes differ behind it (C04 finding
+         undecodable-script-code), so the step-by-step simulation does not apply: excluded, not refuted;
+   (size) hash oracles return strings shorter than 2^32 bytes, the initial stack has fewer than 2^32 items each
+         shorter than 2^32 bytes: a longer blob among CHECKMULTISIG's signatures makes _delete_signature raise
+         OverflowError (a crash) where Core goes on. *)
+Theorem C03_eval_agrees : forall (o : oracles) (flags : N) (sv : sigversion) (ctx : txctx) (script : bytes) (st : stack),
+  c03_hyps o flags sv script st ->
+  res_agree stack_eqb (VMpy.eval_script o flags sv ctx script st) (VMcore.EvalScript o flags sv ctx script st) = true.
+Proof. exact eval_agree_all. Qed.
+Print Assumptions C03_eval_agrees.
+
+(* witness v0 scripts: only (H2) is left *)
+Theorem C03_eval_agrees_witness_v0 : forall (o : oracles) (flags : N) (ctx : txctx) (script : bytes) (st : stack),
+  strict flags = true \/ lax_contract o SV_WITNESS_V0 ->
+  res_agree stack_eqb (VMpy.eval_script o flags SV_WITNESS_V0 ctx script st)
+                      (VMcore.EvalScript o flags SV_WITNESS_V0 ctx script st) = true.
+Proof. exact eval_agree_witness_v0. Qed.
+Print Assumptions C03_eval_agrees_witness_v0.
+
+(* scripts without a signature opcode (no instruction, executed or not, is OP_CHECKSIG, OP_CHECKSIGVERIFY,
+   OP_CHECKMULTISIG or OP_CHECKMULTISIGVERIFY): families (1)..(8), only the MINIMALIF half of (H1) is needed —
+   any stack, any oracle, undecodable scripts included *)
 Theorem C03_eval_agrees_partial : forall (o : oracles) (flags : N) (sv : sigversion) (ctx : txctx) (script : bytes) (st : stack),
   (sv = SV_BASE -> flag_set flags VERIFY_MINIMALIF = false) ->
   no_sig_ops script = true ->
@@ -16,6 +52,16 @@ Theorem C03_eval_agrees_partial : forall (o : oracles) (flags : N) (sv : sigvers
 Proof. exact eval_agree_no_sig. Qed.
 Print Assumptions C03_eval_agrees_partial.
 
-(* the hypotheses are satisfiable and the covered set is not trivial: OP_1 OP_IF OP_2 OP_ELSE OP_3 OP_ENDIF OP_ADD .. *)
+(* the script-code equality that replaced the FindAndDelete hypothesis *)
+Theorem C03_script_code_agrees : forall (tail : bytes) (sigs : list bytes),
+  script_decodable tail = true -> Forall item_ok sigs ->
+  delete_signatures tail (rev sigs) = Ret (fold_left (fun c sg => find_and_delete (push_encode sg) c) sigs tail).
+Proof. exact script_code_agrees. Qed.
+Print Assumptions C03_script_code_agrees.
+
+(* the hypotheses are satisfiable: DERSIG, SV_BASE, DUP HASH160 <1 byte> EQUALVERIFY CHECKSIG on a two-item stack *)
+Example C03_hyps_satisfiable :
+  c03_hyps ex_oracles VERIFY_DERSIG SV_BASE [x76; xa9; x01; x00; x88; xac] [[x01]; [x02]].
+Proof. exact hyps_satisfiable. Qed.
 Example C03_partial_covered_example : no_sig_ops [x51; x63; x52; x67; x53; x68; x76; x93; x87; xa8] = true.
-Proof. vm_compute. reflexivity. Qed.
+Proof. exact partial_covered_example. Qed.
